@@ -73,7 +73,31 @@ def run(ctx: Any, prog: Program) -> None:
         # guard: tested as free
         guard = ast.unparse(p.test) if isinstance(p, ast.If) else ''
         free = (f'{var} not in self' in guard) or (f'{var} not in self._used' in guard)
-        ctx.check('C08.D1', free, vm, r, f'`return {var}` must be guarded by `{var} not in self._used` (guard: `{guard}`)', text=f'return {var} tested free')
+        if not free and blk is not None:
+            # `while var in self: var += 1` before the return: the loop can only be left with var free
+            for st in blk[:blk.index(r)]:
+                if isinstance(st, ast.While) and ast.unparse(st.test) in (f'{var} in self', f'{var} in self._used') and not any(isinstance(x, ast.Break) for x in ast.walk(st)):
+                    free = True
+                    guard = 'exit of `while ' + ast.unparse(st.test) + '`'
+        if free:
+            ctx.check('C08.D1', True, vm, r, f'`return {var}` is reached only with {var} free ({guard})', text=f'return {var} tested free')
+        else:
+            tests_var = any(isinstance(n, ast.Compare) and isinstance(n.ops[0], (ast.In, ast.NotIn)) and dotted(n.left) == var and (dotted(n.comparators[0]) or '').startswith('self') for n in ast.walk(gi))
+            # a value assigned in this very block and returned without any membership test in between is definitely untested
+            fresh_def = None
+            if blk is not None:
+                for st in blk[:blk.index(r)]:
+                    if isinstance(st, ast.Assign) and any(dotted(t) == var for t in st.targets):
+                        fresh_def = st
+            tested_between = fresh_def is not None and any(isinstance(n, ast.Compare) and isinstance(n.ops[0], (ast.In, ast.NotIn)) and dotted(n.left) == var
+                                                             for st in blk[blk.index(fresh_def) + 1:blk.index(r)] for n in ast.walk(st))
+            if fresh_def is not None and not tested_between:
+                ctx.check('C08.D1', False, vm, r, f'`{ast.unparse(fresh_def)}` is returned without being tested against the ids in use (guard of the block: `{guard}`): an id that was re-acquired explicitly in the meantime is handed out a second time',
+                          text=f'return {var} tested free')
+            elif tests_var:
+                ctx.shape('C08.D1', False, vm, r, f'how `return {var}` is guarded by the membership test is not recognised (guard: `{guard}`)', text=f'return {var} tested free')
+            else:
+                ctx.check('C08.D1', False, vm, r, f'`return {var}` is never tested against the ids in use: an id that is still live can be handed out again', text=f'return {var} tested free')
         if var == desired:
             ctx.check('C08.D1', f'{var} > 0' in guard, vm, r, f'a caller-supplied id may only be used when positive (guard: `{guard}`)', text='desired id positive')
     # search variable starts at search_pos and only increases
